@@ -42,9 +42,10 @@ EXPLANATION = ('C16 is claimed at level "other": the recovery of a planted thres
                'interval and the data range, status success, all rows used, pooled counts as planted, bootstrap '
                "fits' A scattered around the planted A, identical under a different file layout / order; "
                'curve_fit is spied at its boundary and the reported fss_params are compared with what it '
-               'returned (model: in-place overwrite sequence of get_fit_params).  Observed: in about 1% of the '
-               'planted data sets the first fit ends in a local minimum outside the data range (third-party '
-               'behaviour, not counted) and panqec then reports the mid-range value as fss_params[0] (known finding).')
+               'returned (model: the bootstrap loop leaves them alone, start values replaced by the mid-range on a '
+               'copy; regression data set of commit 182c096 in the corpus).  Observed: in about 1% of the planted '
+               'data sets the first fit ends in a local minimum outside the data range (third-party behaviour, not '
+               'counted; p_th_fss is still recovered because the bootstrap fits restart from the mid-range).')
 TRUSTED = ['scipy.optimize.curve_fit returns a minimiser of the least-squares cost within ftol (contract; tested on '
            'planted data, compared with the planted cost by the model driver)',
            'numpy Generator(seed 0).beta / choice, np.quantile (linear), np.median, np.std',
@@ -113,7 +114,8 @@ CORPUS = [
     {'pth': 0.161, 'nu': 1.27, 'A': 0.377, 'B': 0.39, 'C': 0.15, 'ds': [3, 9, 11, 12],
      'ps': [0.125305, 0.133, 0.141, 0.149, 0.157, 0.165, 0.173, 0.181, 0.189, 0.196], 'n': N_TRIALS, 'seed': 2},
 ]
-# first fit ends in a local minimum with p_th < 0; panqec then reports the mid-range value as fss_params[0]
+# regression (182c096): the first fit ends in a local minimum with p_th < 0; panqec used to report the mid-range
+# value as fss_params[0] because get_fit_params overwrote the caller's array
 FINDING_INSTANCE = {'pth': 0.159, 'nu': 0.68, 'A': 0.29, 'B': 0.71, 'C': -0.9, 'ds': [3, 13, 14, 15],
                     'ps': [0.116347, 0.125229, 0.134979, 0.144814, 0.154408, 0.163394, 0.172562, 0.182393,
                            0.19159, 0.202323], 'n': N_TRIALS, 'seed': 3}
@@ -185,7 +187,9 @@ def run_thresholds(inst, variant=0):
 
     def spy(f, xdata, ydata, *args, **kw):
         # boundary spy on scipy: what went in (ydata) and what came out, copied at once
-        rec = {'ydata': [float(y) for y in ydata], 'xdata': [[float(v) for v in r] for r in xdata]}
+        p0 = kw.get('p0')
+        rec = {'ydata': [float(y) for y in ydata], 'xdata': [[float(v) for v in r] for r in xdata],
+               'p0': None if p0 is None else [float(v) for v in p0]}
         calls.append(rec)
         try:
             res = real_curve_fit(f, xdata, ydata, *args, **kw)
@@ -232,6 +236,7 @@ def run_thresholds(inst, variant=0):
                 out['fit_raised'] = calls[k].get('raised')
                 # error-rate ranges of the bootstrap resamples that follow the best fit
                 out['bs_bounds'] = [[min(c['xdata'][0]), max(c['xdata'][0])] for c in calls[k + 1:]]
+                out['bs_starts'] = [c['p0'][0] if c['p0'] else float('nan') for c in calls[k + 1:]]
     except Exception as e:  # noqa: BLE001
         out = {'error': f'EXC:{type(e).__name__}:{str(e)[:120]}'}
     finally:
@@ -385,10 +390,11 @@ def correspondence(ctx):
         s.add(f'fssrange - - {rows}',
               f"{out['n_trunc']} {Fraction(out['p_left'])} {Fraction(out['p_right'])}", desc, tag='range')
         if out.get('raw_opt'):
-            # glue between the optimiser's answer and the reported fss_params (in-place overwrites in the
-            # bootstrap loop, replayed by the model on the recorded resample ranges)
+            # glue between the optimiser's answer and the reported fss_params, and the start values handed to
+            # the bootstrap fits (midpoint replacement on a copy), replayed by the model on the recorded ranges
             bounds = ';'.join(f'{fr(lo)},{fr(hi)}' for lo, hi in out['bs_bounds']) or '-'
-            s.add(f"fssreported {fr(out['raw_opt'][0])} {bounds} {fr(fss[0])}", 'ok', desc,
+            starts = ','.join(fr(x) for x in out['bs_starts']) or '-'
+            s.add(f"fssreported {fr(out['raw_opt'][0])} {bounds} {fr(fss[0])} {starts}", 'ok ok', desc,
                   tag='reported-vs-optimiser')
         s.add(f'fssrecovered {fr(inst["pth"])} {fr(recovery_tol(out))} ' + toks, 'recovered', desc, tag='recovery')
     streams.append(s.run())
@@ -497,16 +503,10 @@ def check_case(case):
             # optimiser) is not counted against panqec here.
             raw = out.get('raw_opt')
             if raw is not None and not checks and out['fss_params'] != raw:
-                cur = raw[0]
-                for lo, hi in out['bs_bounds']:
-                    if not (lo <= cur and cur <= hi):
-                        cur = (lo + hi) / 2
-                name = ('fss-params-overwritten-by-range-midpoint'
-                        if out['fss_params'][0] == cur and out['fss_params'][1:] == raw[1:]
-                        else 'fss-params-not-the-fit')
-                checks.append((name, f"fss_params={out['fss_params']} but curve_fit returned {raw}; data range "
-                                     f"[{out['p_left']}, {out['p_right']}], planted p_th {inst['pth']}, "
-                                     f"fit_status {out['fit_status']!r}"))
+                checks.append(('fss-params-not-the-fit',
+                               f"fss_params={out['fss_params']} but curve_fit returned {raw}; data range "
+                               f"[{out['p_left']}, {out['p_right']}], planted p_th {inst['pth']}, "
+                               f"fit_status {out['fit_status']!r}"))
             if checks:
                 case['_check'] = checks[0][0]
                 return '; '.join(c[1] for c in checks[:3])
